@@ -265,7 +265,7 @@ def run(ctx, prog):
             dupp = sorted(set(p for p in paths_ if paths_.count(p) > 1))
             named = [n for n in names if n is not None]
             dupn = sorted(set(n for n in named if named.count(n) > 1))
-            ctx.ob('C11.S2', '%s|injective|%s' % (short, sc), not dupn and not dupp and None not in paths_ and (len(named) in (0, len(names))), regs[0]['where'] if regs and 'where' in regs[0] else '',
+            ctx.ob('C11.S2', '%s|injective|%s' % (short, sc), not dupn and not dupp and None not in paths_, regs[0]['where'] if regs and 'where' in regs[0] else '',
                    '%s registers names %s / members %s more than once (or a non-literal name / non-member address)' % (short, dupn, dupp), sample='%s: %d names, %d members' % (short, len(set(names)), len(set(paths_))))
             for r in regs:
                 if r['name'] is None:
